@@ -34,6 +34,7 @@ structure RunP (f : Font) (glyphs : List Gid) (o : Order) (sub : Sub) (s1 s2 : S
   ext2 : Ext s1 s2
   closed : f.isCFF = false → ∀ g ∈ s2.glyphs, ∀ c ∈ (f.glyph g).comps, c ∈ s2.glyphs
   cff : f.isCFF = true → s2 = s1
+  glyfRun : f.isCFF = false → closeGlyf f o.pops s1 s1.glyphs = some s2
   inRange : ∀ g ∈ s2.glyphs, g < f.glyphs.length
   gsubRun : (f.gsub = none ∧ sub.gsub = none ∧ s1 = St.init glyphs) ∨
     (∃ l lay, f.gsub = some l ∧ subsetGsub o (St.init glyphs) l = some (s1, lay) ∧ sub.gsub = some lay)
@@ -94,7 +95,9 @@ theorem subset_ok {f : Font} {glyphs : List Gid} {o : Order} {sub : Sub}
             have hd : Done f s1 s1.glyphs := fun g hg hn => absurd hg hn
             have := closeGlyf_spec f o.pops s1 s1.glyphs s2 hi1.1 hd hs2
             exact ⟨this.1, this.2.1, fun _ => this.2.2, by simp⟩
-        refine ⟨s1, s2, ⟨hi1.1, hi2.1, hi1.2, hi2.2.1, hi2.2.2.1, hi2.2.2.2, ?_, ?_, ?_⟩⟩
+        have hrun : f.isCFF = false → closeGlyf f o.pops s1 s1.glyphs = some s2 := by
+          intro hc; rw [hc] at hs2; simpa using hs2
+        refine ⟨s1, s2, ⟨hi1.1, hi2.1, hi1.2, hi2.2.1, hi2.2.2.1, hi2.2.2.2, hrun, ?_, ?_, ?_⟩⟩
         · intro g hg'
           rcases Nat.lt_or_ge g f.glyphs.length with hlt | hge
           · exact hlt
